@@ -142,6 +142,26 @@ def run(rep, rng, tier):
                 continue
             add('KRows %s %s %s %s' % (natlist(idx), q(0.0), qmat(np.array(s1, dtype=float).T), qmat(np.array(s2, dtype=float).T)),
                 '%s_response_spectra[rows]' % nm, args, nz=bool(np.any(a != 0)))
+    # ---- large batches: long record x many periods (more than 2^22 state entries) vs single-period calls
+    for k in range(1 * N):
+        n = rng.randint(4200, 5200)
+        tt = np.arange(n) * 0.01        # amplitude grows to the end of the record, so the peak responses occur late
+        a = (tt / tt[-1]) ** 2 * (np.sin(2 * np.pi * rng.uniform(0.5, 3.0) * tt) + 0.5 * np.sin(2 * np.pi * rng.uniform(3.0, 9.0) * tt + 1.0))
+        dt = 0.01
+        nper = rng.randint(1050, 1250)
+        periods = list(np.linspace(0.05, 4.0, nper))
+        idx = sorted(rng.sample(range(nper), 4))
+        xi = 0.05
+        args = {'dt': dt, 'xi': xi, 'n_periods': nper, 'period_grid': 'linspace(0.05, 4, n_periods)', 'sub_indices': idx, 'values': list(map(float, a))}
+        for fn, nm in ((sdof.pseudo_response_spectra, 'pseudo'), (sdof.true_response_spectra, 'true')):
+            s1 = guarded(fn, a, dt, np.array(periods), xi)
+            s2 = guarded(fn, a, dt, np.array([periods[i] for i in idx]), xi)
+            if isinstance(s1, ImplError) or isinstance(s2, ImplError):
+                viol('%s_response_spectra[large batch]' % nm, args, s1 if isinstance(s1, ImplError) else s2)
+                continue
+            sub = np.array(s1, dtype=float).T[idx]
+            add('KRows %s %s %s %s' % (natlist(range(len(idx))), q(0.0), qmat(sub), qmat(np.array(s2, dtype=float).T)),
+                '%s_response_spectra[rows, large batch]' % nm, args)
     # ---- refinement
     for k in range(20 * N):
         n = gens.small_len(rng, 2, 60)
